@@ -22,7 +22,7 @@ META = {
     "(iv) a stochastic state whose transition rows are one-hot rows selected by *symbolic* integers D[...] gives the same values as "
     "the model with the deterministic transition next = D[...].",
     "bounds": "templates TA, TB, TC, TD, TG, TH, TM, TE with grids of 2-5 points, horizons 1-3 (thorough 4); degenerate transition "
-    "arrays for 1 stochastic state with 2 labels depending on (state, choice, period)",
+    "arrays for 1 stochastic state with 2 labels depending on (state, choice, period), alone, next to a continuous state, and next to a second genuinely stochastic state (declared in alphabetical and in non-alphabetical order)",
     "outside": "'models far larger than a reference implementation can enumerate' - sizes are bounded as everywhere; a <= 0",
     "assumptions": ["a > 0", "every state has a feasible choice (finite values)", "D entries are valid labels"],
     "stubs": [],
@@ -47,6 +47,7 @@ def units(tier):
     out += [(f"horizon:{s[0]}{s[1]}", "u_horizon", {"spec": s, "hs": hs}) for s in HORIZON]
     out += [("degenerate-transition[T=2]", "u_degenerate", {"T": 2})]
     out += [("degenerate-transition + second stochastic state, next_* declared in another order than the states [T=2]", "u_degenerate", {"T": 2, "second": True})]
+    out += [("degenerate-transition + second stochastic state `a` declared after `h` (declaration order != alphabetical order, equal grid sizes) [T=2]", "u_degenerate", {"T": 2, "second": "a"})]
     if tier == "thorough":
         out += [("degenerate-transition[T=3]", "u_degenerate", {"T": 3})]  # T=4: z3 does not decide the period-1 cases within the limit
         out += [("degenerate-transition + second stochastic state, next_* declared in another order than the states [T=3]", "u_degenerate", {"T": 3, "second": True})]
@@ -260,26 +261,23 @@ def _sto_det_models(T, second=False):
     from lcm import Model
 
     if second:
-        # a second, genuinely stochastic state j; the functions dict lists next_j BEFORE next_h while the
-        # states dict lists h before j
-        def utility2(h, j, d, U):
-            return U[h, j, d]
-
-        @lcm.mark.stochastic
-        def next_h_sto2(h, d, _period):
-            pass
-
-        def next_h_det2(h, d, _period, D):
-            return D[h, d, _period]
-
-        @lcm.mark.stochastic
-        def next_j(j):
-            pass
-
-        st2 = dict(h=dg(2), j=dg(2))
+        # a second, genuinely stochastic state (named `second`: "j", or "a" so that the declaration order
+        # h, a is NOT the alphabetical order); the functions dict lists next_<second> BEFORE next_h while
+        # the states dict lists h before it
+        jn = second if isinstance(second, str) else "j"
+        ns = {"lcm": lcm}
+        exec(
+            f"def utility2(h, {jn}, d, U):\n    return U[h, {jn}, d]\n"
+            f"@lcm.mark.stochastic\ndef next_h_sto2(h, d, _period):\n    pass\n"
+            f"def next_h_det2(h, d, _period, D):\n    return D[h, d, _period]\n"
+            f"@lcm.mark.stochastic\ndef next_j({jn}):\n    pass\n",
+            ns,
+        )
+        utility2, next_h_sto2, next_h_det2, next_j = ns["utility2"], ns["next_h_sto2"], ns["next_h_det2"], ns["next_j"]
+        st2 = {"h": dg(2), jn: dg(2)}
         ch2 = dict(d=dg(2))
-        sto = Model(n_periods=T, functions=dict(utility=utility2, next_j=next_j, next_h=next_h_sto2), choices=ch2, states=st2)
-        det = Model(n_periods=T, functions=dict(utility=utility2, next_j=next_j, next_h=next_h_det2), choices=ch2, states=st2)
+        sto = Model(n_periods=T, functions={"utility": utility2, f"next_{jn}": next_j, "next_h": next_h_sto2}, choices=ch2, states=st2)
+        det = Model(n_periods=T, functions={"utility": utility2, f"next_{jn}": next_j, "next_h": next_h_det2}, choices=ch2, states=st2)
         return sto, det
 
     def utility(h, d, w, U, tw):
@@ -304,6 +302,8 @@ def _sto_det_models(T, second=False):
 
 def u_degenerate(rec, T, second=False):
     sto, det = _sto_det_models(T, second)
+    jn = second if isinstance(second, str) else "j"
+    nj = f"next_{jn}"
     S = sj.Session()
     sj.SIDE.clear()
     beta, tw = S.real("beta"), S.real("tw")
@@ -316,8 +316,8 @@ def u_degenerate(rec, T, second=False):
         for k in range(2):
             P[i + (k,)] = z3.If(Dt[i] == k, z3.RealVal(1), z3.RealVal(0))
     if second:
-        p_sto = {"beta": beta, "utility": {"U": U}, "next_h": {}, "next_j": {}, "shocks": {"h": S.lift(P), "j": PJ}}
-        p_det = {"beta": beta, "utility": {"U": U}, "next_h": {"D": D}, "next_j": {}, "shocks": {"j": PJ}}
+        p_sto = {"beta": beta, "utility": {"U": U}, "next_h": {}, nj: {}, "shocks": {"h": S.lift(P), jn: PJ}}
+        p_det = {"beta": beta, "utility": {"U": U}, "next_h": {"D": D}, nj: {}, "shocks": {jn: PJ}}
     else:
         p_sto = {"beta": beta, "utility": {"U": U, "tw": tw}, "next_h": {}, "next_w": {}, "shocks": {"h": S.lift(P)}}
         p_det = {"beta": beta, "utility": {"U": U, "tw": tw}, "next_h": {"D": D}, "next_w": {}}
@@ -338,8 +338,8 @@ def u_degenerate(rec, T, second=False):
         b, twc = C.real("beta"), C.real("tw")
         if second:
             Uc, PJc = C.real("U", (2, 2, 2)), C.real("PJ", (2, 2))
-            a = f_sto({"beta": b, "utility": {"U": Uc}, "next_h": {}, "next_j": {}, "shocks": {"h": jnp.asarray(Pc), "j": PJc}})
-            d = f_det({"beta": b, "utility": {"U": Uc}, "next_h": {"D": jnp.asarray(Dc)}, "next_j": {}, "shocks": {"j": PJc}})
+            a = f_sto({"beta": b, "utility": {"U": Uc}, "next_h": {}, nj: {}, "shocks": {"h": jnp.asarray(Pc), jn: PJc}})
+            d = f_det({"beta": b, "utility": {"U": Uc}, "next_h": {"D": jnp.asarray(Dc)}, nj: {}, "shocks": {jn: PJc}})
             return [np.asarray(x) for x in a], [np.asarray(x) for x in d]
         Uc = C.real("U", (2, 2))
         a = f_sto({"beta": b, "utility": {"U": Uc, "tw": twc}, "next_h": {}, "next_w": {}, "shocks": {"h": jnp.asarray(Pc)}})
